@@ -513,7 +513,7 @@ func Run(r *vh.Run) {
 		entropyCase(r, fmt.Sprintf("ent-bit%d", bit), a, "kind:entropy-one-bit")
 		entropyCase(r, fmt.Sprintf("ent-nbit%d", bit), b, "kind:entropy-one-zero-bit")
 	}
-	for i, n := 0, r.Pick(3000, 150000); i < n; i++ {
+	for i, n := 0, r.Pick(3000, 100000); i < n; i++ {
 		entropyCase(r, fmt.Sprintf("ent-rnd%d", i), randEntropy(rng), "kind:entropy-uniform")
 	}
 	// entropies with a prescribed checksum-relevant shape: low 7 bits / high bits sweep
@@ -536,7 +536,7 @@ func Run(r *vh.Run) {
 		}
 	}
 	// 3. uniform sequences, and valid phrases with one word changed / two words swapped
-	for i, n := 0, r.Pick(4000, 200000); i < n; i++ {
+	for i, n := 0, r.Pick(4000, 150000); i < n; i++ {
 		indexCase(r, fmt.Sprintf("seq-rnd%d", i), randIdx(rng, 12), "kind:sequence-uniform")
 	}
 	for i, n := 0, r.Pick(1000, 40000); i < n; i++ {
